@@ -12,7 +12,11 @@ package utils
 //vf:job C02 thorough VF_C02_BigKey t=7..10 n=2 fresh=1
 //vf:job C02 thorough VF_C02_BigKey t=13 n=2
 //vf:job C02 quick VF_C02_BigKey t=2 n=2 exp=0,2
+//vf:job C02 quick VF_C02_BigKey t=0,2,6 n=1 exp=1..2 shift=1..2
 //vf:job C02 quick VF_C02_QuicklistRoute n=1..2
+//vf:job C02 quick VF_C02_QuicklistRoute n=1 shift=1..2
+//vf:job C02 quick VF_C02_ChunkedHash split=0 shift=1..2
+//vf:job C02 quick VF_C02_BadFormat t=0..3 shift=1..2
 //vf:job C02 quick VF_C02_ChunkedHash split=0..2
 //vf:job C02 quick VF_C02_BadFormat t=0..3
 //vf:job C02 quick VF_C02_Lua
@@ -457,7 +461,7 @@ func VF_C02_BigKey() {
 	r := vfNewRedis()
 	key := vfBytes("key", 1)
 	vfPreKey(r, key, pre)
-	expireAt, wantTTL, hasTTL := vfExpiryShift(vfParam("exp", 1), 0)
+	expireAt, wantTTL, hasTTL := vfExpiryShift(vfParam("exp", 1), vfParam("shift", 0))
 	typ, raw, lg := vfBuild(vfParam("t", 0), vfParam("n", 1))
 	e := vfEntry(typ, raw, key, expireAt)
 	err := RestoreRdbEntry(r, e)
@@ -489,7 +493,7 @@ func VF_C02_ChunkedHash() {
 	r := vfNewRedis()
 	key := vfBytes("key", 1)
 	vfPreKey(r, key, pre)
-	expireAt, wantTTL, hasTTL := vfExpiryShift(vfPick("exp", 2), 0)
+	expireAt, wantTTL, hasTTL := vfExpiryShift(vfPick("exp", 2), vfParam("shift", 0))
 	lg := vfLogical{kind: "hash"}
 	var firstErr error
 	idx := 0
@@ -547,7 +551,7 @@ func VF_C02_QuicklistRoute() {
 	r := vfNewRedis()
 	key := vfBytes("key", 1)
 	vfPreKey(r, key, pre)
-	expireAt, wantTTL, hasTTL := vfExpiryShift(vfPick("exp", 3), 0)
+	expireAt, wantTTL, hasTTL := vfExpiryShift(vfPick("exp", 3), vfParam("shift", 0))
 	typ, raw, lg := vfBuild(12, vfParam("n", 1))
 	e := vfEntry(typ, raw, key, expireAt)
 	err := RestoreRdbEntry(r, e)
@@ -575,7 +579,7 @@ func VF_C02_BadFormat() {
 	r := vfNewRedis()
 	r.rejectBlob = func(p []byte) bool { return true }
 	key := vfBytes("key", 1)
-	expireAt, wantTTL, hasTTL := vfExpiryShift(vfPick("exp", 3), 0)
+	expireAt, wantTTL, hasTTL := vfExpiryShift(vfPick("exp", 3), vfParam("shift", 0))
 	typ, raw, lg := vfBuild([]int{2, 6, 4, 0}[vfParam("t", 0)], 2)
 	e := vfEntry(typ, raw, key, expireAt)
 	err := RestoreRdbEntry(r, e)
